@@ -161,6 +161,11 @@ class OneOf(Kind):
         return a
 
 
+class _Shim:
+    def __init__(self, ctx):
+        self.ctx = ctx
+
+
 class ObjOf(Kind):
     """A mutable object of repository class `cls` with the given field kinds."""
 
@@ -172,7 +177,12 @@ class ObjOf(Kind):
     def fresh(self, ctx, hint="obj"):
         o = SObj(self.cls, {})
         for f, k in self.fields.items():
-            o.fields[f] = k.fresh(ctx, "%s.%s" % (hint, f)) if isinstance(k, Kind) else k
+            if isinstance(k, Kind):
+                o.fields[f] = k.fresh(ctx, "%s.%s" % (hint, f))
+            elif callable(k):
+                o.fields[f] = k(_Shim(ctx))
+            else:
+                o.fields[f] = k
         return o
 
 
@@ -435,3 +445,10 @@ def kind_of(v):
     if isinstance(v, bytes):
         return BYTES
     return None
+
+
+class Alternatives:
+    """Candidate results of a modular call: the callee's ensures select the feasible ones."""
+
+    def __init__(self, options):
+        self.options = list(options)
